@@ -343,6 +343,23 @@ func CheckC02(run *harness.Run) int {
 			s.Signers = c.pickSigners(pm, 0)
 			c.judge(wd, "after a failed committee lookup: signers are a quorum of the previous height's committee", blk, c.build(s, prev), prevBlk, prev, "after-failed-lookup")
 		}
+		// the caller hands over a prevBlock that is not the predecessor (an older block, or none): the certificate is still judged
+		// against the committee of the block's own height (worlds whose committee contract is keyed by the height)
+		if !wd.mem.KeyedByRefTime && wi%3 == 0 {
+			for _, pb := range []*spi.Blk{nil, {H: h - 2, Body: "older"}, {H: 0, Body: "genesis-like"}} {
+				if pb != nil && h < 3 && pb.H == h-2 {
+					continue
+				}
+				ph := uint64(1)
+				if pb != nil {
+					ph = pb.H + 1
+				}
+				s := base(0)
+				s.Signers = c.pickSigners(ref.NewCommittee(wd.comm[ph]), 0) // a quorum of the committee of (prevBlock's height + 1)
+				c.judge(wd, fmt.Sprintf("prevBlock is not the predecessor (%v): signers are a quorum of the committee of its successor height %d", pb, ph), blk, c.build(s, prev), pb, prev, "foreign-prev-block")
+				c.judge(wd, fmt.Sprintf("prevBlock is not the predecessor (%v): genuine certificate", pb), blk, c.build(base(0), prev), pb, prev, "foreign-prev-block-genuine")
+			}
+		}
 		// field mutations of a quorum certificate
 		for k := 0; k < 14; k++ {
 			s := base(0)
